@@ -210,6 +210,22 @@ func c10ServerUnencodable() *Scenario {
 				vs.AwaitQuiescence()
 				peer.Close()
 				srv.WaitStatus()
+				// the client side: a callback handler whose error cannot be encoded still produces a whole reply message
+				{
+					lib3, peer3, _ := NewPipe(PipeOpts{Name: "cli2", CloseUnblocksRecv: true, Monitor: true})
+					c3 := jrpc2.NewClient(lib3, &jrpc2.ClientOptions{OnCallback: func(ctx context.Context, req *jrpc2.Request) (any, error) {
+						if req.Method() == "badresult" {
+							return make(chan int), nil
+						}
+						return nil, &jrpc2.Error{Code: 7, Message: "e", Data: []byte("not json")}
+					}})
+					peer3.Send([]byte(`{"jsonrpc":"2.0","id":1,"method":"cb"}`))
+					vs.AwaitQuiescence()
+					peer3.Send([]byte(`{"jsonrpc":"2.0","id":2,"method":"badresult"}`))
+					vs.AwaitQuiescence()
+					peer3.Close()
+					c3.Close()
+				}
 				// the client side: a batch without entries transmits nothing
 				lib2, peer2, _ := NewPipe(PipeOpts{Name: "cli", CloseUnblocksRecv: true, Monitor: true})
 				c := jrpc2.NewClient(lib2, nil)
@@ -224,6 +240,23 @@ func c10ServerUnencodable() *Scenario {
 				v := genericRules(x, nil)
 				v = append(v, disciplineRules(x, "srv", 1)...)
 				v = append(v, disciplineRules(x, "cli", 1)...)
+				v = append(v, disciplineRules(x, "cli2", 1)...)
+				cbReplies := 0
+				for _, o := range outEvents(x, "cli2") {
+					if len(o.Raw) == 0 {
+						v = append(v, Viol{"C10.R5", "the client passed an empty record to Send (reply to a callback whose handler's error could not be encoded)"})
+					}
+					if ms, _, err := parseRecord([]byte(o.Raw)); err == nil {
+						for _, m := range ms {
+							if (m.ID() == "1" || m.ID() == "2") && m.Has("error") {
+								cbReplies++
+							}
+						}
+					}
+				}
+				if x.Outcome == "ok" && cbReplies != 2 {
+					v = append(v, Viol{"C10.R5", fmt.Sprintf("%d of the 2 callbacks whose handler outcome could not be encoded were answered with an error object", cbReplies)})
+				}
 				answered := false
 				for _, o := range outEvents(x, "srv") {
 					if len(o.Raw) == 0 {
